@@ -248,6 +248,7 @@ type c01Pool struct {
 	signedEenc  *etree.Element // E signed by the IdP's encryption-use key
 	unsignedE   *etree.Element
 	signedEidp2 *etree.Element // E signed by idp2 (trusted only in meta2)
+	signedStale *etree.Element // alice's assertion of a month ago, signed by idp1, same ID as A, long expired
 }
 
 func mkPool() *c01Pool {
@@ -279,6 +280,17 @@ func mkPool() *c01Pool {
 	samlgen.Sign(p.signedEenc, samlgen.Key("idpenc"), "")
 	p.signedEidp2 = p.E.Element()
 	samlgen.Sign(p.signedEidp2, samlgen.Key("idp2"), "")
+	// an old assertion of alice's, genuinely signed by the IdP long ago (captured then, expired since), under the same ID as A
+	st := samlgen.DefaultAssertion()
+	old := samlgen.TS(samlgen.T0.Add(-30 * 24 * time.Hour))
+	oldEnd := samlgen.TS(samlgen.T0.Add(-30*24*time.Hour + 5*time.Minute))
+	st.IssueInstant, st.NotBefore, st.NotOnOrAfter = samlgen.S(old), samlgen.S(old), samlgen.S(oldEnd)
+	st.Confirmations[0].NotOnOrAfter = samlgen.S(oldEnd)
+	if fp, err := fpOfElement(st.Element()); err == nil {
+		p.genuineFP[fp] = "alice-a-month-ago"
+	}
+	p.signedStale = st.Element()
+	samlgen.Sign(p.signedStale, idp1(), "")
 	return p
 }
 
@@ -1172,6 +1184,56 @@ func c01Ops(p *c01Pool) []c01Op {
 					sh := etree.NewElement("ds:Signature")
 					sh.CreateAttr("xmlns:ds", samlgen.NSDsig)
 					target.InsertChildAt(at, sh)
+				}
+				return true
+			})
+		}
+	}
+	// a verified signature vouches for the element it is on, not for another element that shares its ID: an expired but genuinely signed
+	// assertion followed (or preceded) by an unsigned twin of the same ID
+	for _, order := range []string{"stale-first", "evil-first"} {
+		order := order
+		add("replace-A-with-stale-genuine+evil-twin-of-the-same-ID/"+order, func(root *etree.Element, p *c01Pool) bool {
+			a := theA(root)
+			if a == nil || a.Parent() == nil || a.Parent().Tag != "Response" {
+				return false
+			}
+			par, idx := a.Parent(), a.Index()
+			par.RemoveChild(a)
+			evil := p.unsignedE.Copy()
+			evil.CreateAttr("ID", "id-assertion-1")
+			if order == "stale-first" {
+				par.InsertChildAt(idx, evil)
+				par.InsertChildAt(idx, p.signedStale.Copy())
+			} else {
+				par.InsertChildAt(idx, p.signedStale.Copy())
+				par.InsertChildAt(idx, evil)
+			}
+			return true
+		})
+	}
+	// a signature made by the attacker that names an algorithm no verifier implements, under the (public) trusted certificate: not verifiable
+	// is not verified
+	for _, where := range []string{"Response", "A"} {
+		for _, alg := range []string{"http://www.w3.org/2007/05/xmldsig-more#sha256-rsa-MGF1", "urn:example:no-such-signature-method", ""} {
+			where, alg := where, alg
+			add("attacker-signature+trusted-cert+unknown-method/"+where+"/"+alg[strings.LastIndexAny(alg, "#:")+1:], func(root *etree.Element, p *c01Pool) bool {
+				target := theResponse(root)
+				if where == "A" {
+					target = theA(root)
+				}
+				if target == nil {
+					return false
+				}
+				for _, sg := range childNS(target, samlgen.NSDsig, "Signature") {
+					target.RemoveChild(sg)
+				}
+				sg := samlgen.Sign(target, samlgen.Key("attacker"), "")
+				for _, x := range findNS(sg, samlgen.NSDsig, "X509Certificate") {
+					x.SetText(idp1().CertB64)
+				}
+				for _, sm := range findNS(sg, samlgen.NSDsig, "SignatureMethod") {
+					sm.CreateAttr("Algorithm", alg)
 				}
 				return true
 			})
